@@ -9,6 +9,7 @@ import (
 	"math/rand"
 	"os"
 	"strings"
+	"time"
 
 	"mltwist/internal/consoleui"
 	"mltwist/internal/consoleui/disassemble"
@@ -23,8 +24,8 @@ import (
 	"mltwist/pkg/model"
 	"mltwist/verifh/emuchk"
 	"mltwist/verifh/mon"
-	"mltwist/verifh/rvgen"
 	"mltwist/verifh/refrv"
+	"mltwist/verifh/rvgen"
 )
 
 // Feeder hands the UI exactly one line per Read: queued lines first, then an
@@ -238,11 +239,15 @@ func NewSessionAt(r *rand.Rand, minIns int, base uint64) (*Session, error) {
 	}
 }
 
+// ExecTimeout bounds one command.
+var ExecTimeout = 30 * time.Second
+
 // Exec feeds one command line (plus answers) to the real processCommand.
 type ExecResult struct {
 	Out      string
 	Err      error
 	Panicked bool
+	Hung     bool // the command did not return (reported like a crash, PanicVal says so)
 	PanicVal any
 	Stack    string
 	Consumed []string
@@ -254,7 +259,30 @@ func (s *Session) Exec(line string, answers ...string) ExecResult {
 	Feed.Push(answers...)
 	Out.Take()
 	var res ExecResult
-	res.Panicked, res.PanicVal, res.Stack = mon.Try(func() { res.Err = s.UI.VerifProcessCommand() })
+	// the command runs in its own goroutine: a command that never returns (observed with a
+	// corrupted cursor: the search loop of 'find' spins for ever) must not hang the shard
+	// until the parent's watchdog turns the whole run inconclusive. 30 s for a computation
+	// of microseconds; the spinning goroutine is abandoned together with its session.
+	type done struct {
+		p   bool
+		v   any
+		st  string
+		err error
+	}
+	ch := make(chan done, 1)
+	go func() {
+		var d done
+		d.p, d.v, d.st = mon.Try(func() { d.err = s.UI.VerifProcessCommand() })
+		ch <- d
+	}()
+	select {
+	case d := <-ch:
+		res.Panicked, res.PanicVal, res.Stack, res.Err = d.p, d.v, d.st, d.err
+	case <-time.After(ExecTimeout):
+		res.Hung = true
+		res.Panicked, res.PanicVal = true, fmt.Sprintf("the command did not return within %v (no-return)", ExecTimeout)
+		res.Stack = "goroutine abandoned\nmltwist/internal/consoleui.(*UI).processCommand(no return)\n"
+	}
 	res.Out = Out.Take()
 	res.Consumed = append([]string(nil), Feed.Consumed...)
 	return res
